@@ -14,9 +14,9 @@ vars == <<b, rep, steps, probes>>
 
 Src(name, layout) == [name |-> name, layout |-> layout, sign |-> "plain", dec |-> "dot", header |-> TRUE, status |-> "present", delim |-> "comma"]
 Init == /\ b \in IF PairInit
-                  THEN {[sources |-> <<Src("Card", l), Src("Bank", l)>>, rules |-> "rules", mode |-> "first_match", supp |-> FALSE, views |-> FALSE, xform |-> FALSE] :
+                  THEN {[sources |-> <<Src("Card", l), Src("Bank", l)>>, rules |-> "rules", mode |-> "first_match", supp |-> FALSE, views |-> FALSE, xform |-> FALSE, cur |-> "absent", modeBogus |-> FALSE, mfMissing |-> FALSE, vf |-> "ok", year |-> "absent", out |-> "absent"] :
                           l \in {"L1", "L2", "L4"}}
-                  ELSE {[sources |-> <<Src("Card", l)>>, rules |-> r, mode |-> "first_match", supp |-> FALSE, views |-> FALSE, xform |-> FALSE] :
+                  ELSE {[sources |-> <<Src("Card", l)>>, rules |-> r, mode |-> "first_match", supp |-> FALSE, views |-> FALSE, xform |-> FALSE, cur |-> "absent", modeBogus |-> FALSE, mfMissing |-> FALSE, vf |-> "ok", year |-> "absent", out |-> "absent"] :
                           l \in {"L1", "L2", "L4"}, r \in {"none", "rules", "csv"}}
         /\ rep = Report(b) /\ steps = 0 /\ probes = [k \in 1..Len(Probes) |-> Explain(b, Probes[k])]
 
@@ -37,6 +37,12 @@ ChangeBudget ==
   \/ \E v \in BOOLEAN : Set([b EXCEPT !.supp = v])
   \/ \E v \in BOOLEAN : Set([b EXCEPT !.views = v])
   \/ \E v \in BOOLEAN : Set([b EXCEPT !.xform = v])
+  \/ \E v \in {"absent", "eur", "zl"} : Set([b EXCEPT !.cur = v])
+  \/ \E v \in BOOLEAN : Set([b EXCEPT !.modeBogus = v])
+  \/ \E v \in BOOLEAN : Set([b EXCEPT !.mfMissing = v])
+  \/ \E v \in {"ok", "missing", "corrupt"} : Set([b EXCEPT !.vf = v])
+  \/ \E v \in {"absent", "y2024"} : Set([b EXCEPT !.year = v])
+  \/ \E v \in {"absent", "custom"} : Set([b EXCEPT !.out = v])
   \/ (Len(b.sources) = 1 /\ \E l \in {"L1", "L2", "L4"} : Set([b EXCEPT !.sources = Append(@, Src("Bank", l))]))
 Next == ChangeSource \/ ChangeBudget
 Spec == Init /\ [][Next]_vars
@@ -54,5 +60,7 @@ Inv_FlowsConserve == SumOver(DOMAIN rep.flows, rep.flows) = SumOver(1..Len(rep.t
 \* C16 on the model: what explain says about a probe is what up would say about such a transaction - by construction one function;
 \* discover's list is the Unknown part of the report
 Inv_DiscoverIsUnknownPart == \A k \in 1..Len(Discover(b)) : Discover(b)[k].cat = "Unknown" /\ Discover(b)[k].rule = 0
+\* what the run uses is what Config.tla derives from the settings, and every setting that is not honoured is reported
+Inv_ConfigReported == C!NothingIgnoredSilently(SettingsOf(b)) /\ C!KeyWins(SettingsOf(b))
 Neg_ModeNeverMatters == \A k \in 1..Len(rep.txns) : rep.txns[k].cat # "Big"
 =============================================================================
